@@ -512,10 +512,8 @@ inline AnamHermite* buildAnamHermite(const Value& o)
 {
   double r = num(o.at("rcoef"));
   AnamHermite* a = AnamHermite::create((int)o.at("psi").arr.size(), true, r);
-  // the recipe gives the effective coefficients psi_n r^n (what getPsiHns returns); r is a power of 2: the division is exact
+  // the recipe gives the Hermite coefficients themselves (the change of support r is a separate parameter)
   VectorDouble psi = nums(o.at("psi"));
-  double rn = 1.;
-  for (size_t n = 0; n < psi.size(); n++) { if (psi[n] != TEST) psi[n] /= rn; rn *= r; }
   Value c = o.at("cont");
   a->setPsiHns(psi);
   a->calculateMeanAndVariance();       // as after a fit: mean and variance are those of the coefficients
@@ -530,7 +528,12 @@ inline Value projAnamHermite(AnamHermite* a)
   c.arr[8] = Value("*"); c.arr[9] = Value("*");      // mean and variance are functions of the coefficients
   p["cont"] = c;
   p["rcoef"] = T(a->getRCoef());
-  p["psi"] = toks(a->getPsiHns());
+  // getPsiHns() returns psi_n r^n: the coefficients themselves are recovered (r is a power of 2 here: exact division)
+  VectorDouble psi = a->getPsiHns();
+  double r = a->getRCoef(), rn = 1.;
+  if (!FFFF(r) && r > 0.)
+    for (size_t n = 0; n < psi.size(); n++) { if (psi[n] != TEST) psi[n] /= rn; rn *= r; }
+  p["psi"] = toks(psi);
   return p;
 }
 inline Value queryAnamHermite(AnamHermite* a)
